@@ -15,13 +15,13 @@ PROP = dict(
         "of both signs against the exact rational value of the double 2*pi; control polygons of 0..17 points (every Eval branch: panic, 3 closed forms, every table "
         "row, recursive fallback) at dyadic t sized so that float64 arithmetic is exact, and at arbitrary doubles in bit mode; axis-aligned power-of-two polylines "
         "(exact) and Pythagorean/generic polylines (bit mode) incl. the L-shape at t=1/4; joined curves; table objectives (piecewise constant, arbitrary shape) "
-        "for Line/Grid2D/Grid3D/RecursiveLineSearch with even and odd stops and 0-3 recursions, GSS, bisection; distinct = distinct operation lines"
+        "for Line/Grid2D/Grid3D/RecursiveLineSearch with even and odd stops and 0-3 recursions, plus spikes sitting on/next to the first or last stop (clamped refinement window), GSS, bisection; polynomials lead*prod(x-r_i)*prod((x-h)^2+k) of degree 1-8 with known dyadic roots and BOTH signs of the leading coefficient (expected roots computed by the driver); Bezier.Length vs chord sum of Eval and vs Split halves (closed, repeated, collinear, tiny, point polygons); distinct = distinct operation lines"
     ),
     trusted=[
         "modelled, not verified: sort.SearchFloat64s as 'least index with a[i] >= x' (true on the sorted cumulative offsets); math.Mod as the exact x - trunc(x/y)*y; math.Sqrt / int() / trunc as function parameters constrained by their defining property in the theorems",
         "Coord/Vec Scale/Add/Sub are component-wise, so Bezier kernels are modelled per coordinate (both coordinates are compared by the correspondence)",
         "Polynomial.Mul is modelled as the sum of shifted rows (equal to the Go double loop over any commutative ring; compared in exact mode only)",
-        "VALIDATION ONLY, not proved: eigenvalues/SVD (2,3,4)/symEigDecomp/LeastSquares3/SparseCholesky/RCM+Permute/BiCGSTAB/RealRoots of degree 3-8 are checked through residual contracts at tolerance 1e-6 on well-conditioned generated inputs (kind 'resid'); their convergence and conditioning are floating-point analysis",
+        "VALIDATION ONLY, not proved: BezierCurve.Length (tolerance 1e-5*L+1e-7 against Eval chord sums and Split halves), RealRoots on known-root polynomials (tolerance 2^-17, kind realroots.q); eigenvalues/SVD (2,3,4)/symEigDecomp/LeastSquares3/SparseCholesky/RCM+Permute/BiCGSTAB/RealRoots of degree 3-8 are checked through residual contracts at tolerance 1e-6 on well-conditioned generated inputs (kind 'resid'); their convergence and conditioning are floating-point analysis",
         "floating-point rounding is outside the theorems: they are over ordered fields; the exact mode ties the field instance to the code on inputs where float64 arithmetic is exact, the bit mode ties the operation order",
     ],
     assumptions=[
@@ -34,7 +34,7 @@ PROP = dict(
     level_text=(
         "Theorems (Lean 4, all inputs, every linearly ordered field): 2x2/3x3 Inverse is a two-sided inverse when Det != 0, MulColumnInv solves, Det is multiplicative, "
         "Transpose is an involution; Matrix4.CharPoly is det(xI - m); list polynomials Eval/Add/Mul/Scale/Derivative/divideRoot satisfy their defining equations and the "
-        "closed-form root branches return exactly the real roots; CanonicalAngle returns the congruent angle in [0, tau) and AngleDist the circular distance; the binomial "
+        "closed-form root branches return exactly the real roots and the Cauchy window of the bracketing branch contains every real root; CanonicalAngle returns the congruent angle in [0, tau) and AngleDist the circular distance; the binomial "
         "table regenerated from the source equals Nat.choose (kernel-decided); BezierCurve.Eval equals de Casteljau for every degree (closed forms, table branch, recursive "
         "fallback), Split reparametrises, Polynomials converts; SegmentCurve.Eval is the point at arclength fraction t; the grid/line/golden-section searches return a "
         "point at least as good as every sample evaluated at any recursion level. Tie: the same generic definitions are executed at Rat and compared for equality with the "
